@@ -2,7 +2,7 @@
 
 proof:   lean/RV/Props/C15.lean  (wrap loops, open-boundary removal loop, oct-tree insertion
          invariants, mass/centre-of-mass aggregation, theta=0 walk, functional update)
-tie:     lean/RV/Model/{Boundary,Tree}.lean run on IEEE doubles (drv_c15) vs
+tie:     lean/RV/Model/{Boundary,Tree,TreeArr}.lean run on IEEE doubles (drv_c15) vs
          reb_boundary_check (bitwise) and vs a read-only pre-order dump of sim->tree_root
          (harness/c15_dump.c compiled against the scratch headers): fresh trees, and trees
          after boundary wrap / steps / removals (canonical shape = fresh build from the
@@ -104,6 +104,12 @@ def messages(sim):
         s = buf.value.decode("ascii", "replace")
         out.append((s[:1], s[1:]))
     return out
+
+
+def near_refused(ms):
+    """with fixes/C15-N2 applied the code refuses a particle that is a few ulp from another one (refinement would not
+    end) with this message, exactly like a coincident one: such a run is outside the hypothesis (distinct positions)"""
+    return any("(nearly) the same coordinates" in t for _, t in ms)
 
 
 # ----------------------------------------------------------------------------- configurations
@@ -531,6 +537,9 @@ def run_sim(cfg, out, model_budget):
         out.inc("steps")
         if cfg.get("face") and not out.notes.get("f18_seen") and any(f18_class(cfg, p) for p in after):
             out.notes["f18_seen"] = True
+        if near_refused(ms):
+            out.inc("near_coincident_refused")
+            break
         for kind, text in ms:
             if kind == "e":
                 out.viol.append(("step-error", "step %d reported: %s" % (step, text), dict(cfg=cfg, step=step)))
@@ -591,7 +600,11 @@ def run_sim(cfg, out, model_budget):
             # exactly what reb_simulation_step does before the tree is used (rebound.c:101-110)
             _clib.reb_boundary_check(ctypes.byref(sim))
             _clib.reb_simulation_update_tree(ctypes.byref(sim))
-            for kind, text in messages(sim):
+            ums = messages(sim)
+            if near_refused(ums):
+                out.inc("near_coincident_refused")
+                break
+            for kind, text in ums:
                 if kind == "e":
                     out.viol.append(("update-error", "tree update after step %d reported: %s" % (step, text), dict(cfg=cfg, step=step)))
             if sim.N > 0:
@@ -734,6 +747,9 @@ def run_boundary(cfg, rows, out, with_tree):
         # far-displaced particles all get re-inserted during one update walk
         _clib.reb_simulation_update_tree(ctypes.byref(sim))
         ms = messages(sim)
+        if near_refused(ms):
+            out.inc("near_coincident_refused")
+            return
         for kind, text in ms:
             if kind == "e":
                 out.viol.append(("update-error", "tree update after wrap reported: %s" % text, rep))
@@ -744,6 +760,102 @@ def run_boundary(cfg, rows, out, with_tree):
     elif with_tree and bnd == "open" and sim.N > 0:
         evaluate_tree(cfg, sim, out, "after open-boundary removal + tree update", True, 0)
     out.evals.append((key, n))
+
+
+# ----------------------------------------------------------------------------- update walk: array order + forest
+def run_scramble(cfg, out):
+    """rounds of: overwrite positions (stay / move a little / jump / flag y=NaN / leave the box), call
+    reb_simulation_update_tree alone, compare the new ORDER of the particle array (hashes) and the tree with the model
+    of the walk (swap-with-last renumbering, re-insertion after the walk), and assert the statement itself"""
+    rng = SplitMix(cfg["seed"] ^ 0x5bd1e995)
+    rs, nx, ny, nz = box_of(cfg)
+    Ls = [rs * nx, rs * ny, rs * nz]
+    sim = make_sim(cfg)
+    if add_parts(sim, cfg):
+        out.inc("configs_rejected_at_add")
+        return
+    key = ("scramble", cfg["boundary"], nx, ny, nz, min(sim.N, 50))
+    for rnd in range(cfg.get("rounds", 3)):
+        pre = get_parts(sim)
+        n = len(pre)
+        if n == 0:
+            break
+        rows = []
+        kinds = {}
+        for p in pre:
+            u = rng.uniform()
+            row = [p["x"], p["y"], p["z"], p["vx"], p["vy"], p["vz"]]
+            if u < 0.3:
+                k = "stay"
+            elif u < 0.6:
+                k = "move"
+                for a in range(3):
+                    v = row[a] + rng.normal() * rs * 10 ** (-rng.uniform(0, 3))
+                    if abs(v) < Ls[a] / 2 * (1 - 1e-9):
+                        row[a] = v
+            elif u < 0.85:
+                k = "jump"
+                for a in range(3):
+                    row[a] = rng.uniform(-Ls[a] / 2, Ls[a] / 2) * (1 - 1e-9)
+            elif u < 0.95:
+                k = "flag"
+                row[1] = float("nan")
+                if rng.chance(0.5):
+                    row[0] = rng.uniform(-2 * Ls[0], 2 * Ls[0])
+            else:
+                k = "out"
+                a = rng.randint(0, 2)
+                row[a] = rng.choice([-1, 1]) * Ls[a] * rng.uniform(0.51, 3.0)
+            if k != "flag" and any(axis_misfiled(row[a], Ls[a], rs, (nx, ny, nz)[a]) for a in range(3) if abs(row[a]) <= Ls[a] / 2):
+                row = [p["x"], p["y"], p["z"], p["vx"], p["vy"], p["vz"]]
+                k = "stay"
+            kinds[k] = kinds.get(k, 0) + 1
+            rows.append(row)
+        set_parts(sim, rows)
+        _clib.reb_simulation_update_tree(ctypes.byref(sim))
+        ms = messages(sim)
+        n_out = kinds.get("out", 0)
+        if near_refused(ms):
+            out.inc("near_coincident_refused")
+            return
+        bad = [t for kk, t in ms if kk == "e" and "outside of box" not in t and "outside of simulation box" not in t]
+        rep = dict(cfg=cfg, round=rnd, rows=[[d2h(v) for v in r] for r in rows])
+        if bad:
+            out.viol.append(("update-error", "reb_simulation_update_tree reported: %s" % bad[0], rep))
+            return
+        post = get_parts(sim)
+        out.inc("update_walk_calls")
+        for kk, v in kinds.items():
+            out.inc("scramble_" + kk, v)
+        # ---- the statement: exactly the non-flagged in-box particles remain, each once, coordinates untouched
+        want = sorted(p["h"] for p, r in zip(pre, rows) if r[1] == r[1] and all(abs(r[a]) <= Ls[a] / 2 for a in range(3)))
+        got = sorted(p["h"] for p in post)
+        if got != want:
+            out.viol.append(("update-lost-particle", "tree update: particles with hash %s should remain (not flagged, inside the box) but %s do"
+                             % (want[:12], got[:12]), rep))
+            return
+        byh = {p["h"]: r for p, r in zip(pre, rows)}
+        for p in post:
+            r = byh[p["h"]]
+            if (p["x"], p["y"], p["z"]) != (r[0], r[1], r[2]):
+                out.viol.append(("update-moved-particle", "tree update changed the coordinates of particle %d" % p["h"], rep))
+                return
+        if sim.N > 0:
+            evaluate_tree(cfg, sim, out, "after scramble round %d + tree update" % rnd, False, rnd)
+            if out.viol:
+                return
+            _clib.reb_simulation_update_tree_gravity_data(ctypes.byref(sim))
+            cells = get_dump(sim)
+        else:
+            cells = []
+        # ---- model: same walk on (array, forest)
+        idx = {p["h"]: i for i, p in enumerate(pre)}
+        toks = ["update", ROOT_RULE[0], cfg["rs"], str(nx), str(ny), str(nz), str(FUEL_TREE), str(n)]
+        for p, r in zip(pre, rows):
+            toks += [d2h(p["x"]), d2h(p["y"]), d2h(p["z"]), d2h(r[0]), d2h(r[1]), d2h(r[2]), d2h(p["m"])]
+        exp = "ord " + " ".join(str(idx[p["h"]]) for p in post) + " " + dump_str(cells)
+        out.lines.append((" ".join(toks), " ".join(exp.split()), dict(where="update walk: array order + forest", N=n, exact=True)))
+    out.evals.append((key, len(cfg["parts"])))
 
 
 # ----------------------------------------------------------------------------- forked workers
@@ -762,6 +874,8 @@ def worker(job, path):
             run_boundary(job["cfg"], rows, out, job["with_tree"])
         elif kind == "fresh":
             run_fresh(job["cfg"], out)
+        elif kind == "scramble":
+            run_scramble(job["cfg"], out)
     except Exception as e:   # python-level failure inside the worker = infrastructure
         import traceback
         out.notes["exception"] = traceback.format_exc()[-1500:]
@@ -789,8 +903,15 @@ def run_fresh(cfg, out):
     parts = get_parts(sim)
     if cfg.get("face") and any(f18_class(cfg, p) for p in parts):
         out.notes["f18_seen"] = True
-    coincident = [i for i, ms in addmsgs if any("same coordinates" in t for _, t in ms)]
+    nearly = [i for i, ms in addmsgs if near_refused(ms)]
+    coincident = [i for i, ms in addmsgs if any("same coordinates" in t for _, t in ms) and not near_refused(ms)]
     other = [(i, ms) for i, ms in addmsgs if not any("same coordinates" in t for _, t in ms)]
+    if nearly and (not coincident or nearly[0] < coincident[0]):
+        # refused because refinement would not end; the model (no such rule) runs out of fuel on the same particle
+        line = model_line(cfg, [dict(x=h2d(r[0]), y=h2d(r[1]), z=h2d(r[2]), m=h2d(r[6])) for r in cfg["parts"]], False)
+        out.lines.append((line, "err fuel %d" % nearly[0], dict(where="near-coincident add refused (model: fuel exhausted)", N=len(parts), exact=True)))
+        out.inc("near_coincident_refused")
+        return
     key = ("fresh", cfg["nx"], cfg["ny"], cfg["nz"], cfg["posmode"], min(len(parts), 50))
     if other:
         out.viol.append(("add-error", "adding an in-box particle reported: %s" % other[0][1][0][1], dict(cfg=cfg)))
@@ -880,9 +1001,10 @@ def run(c):
     ok = c.prove(["RV.Props.C15"])
     exe = lean_exe("drv_c15")
     T = c.thorough
-    n_fresh = 6000 if T else 500
-    n_bnd = 9000 if T else 800
-    n_sim = 9000 if T else 600
+    n_fresh = 6000 if T else 400
+    n_bnd = 9000 if T else 600
+    n_sim = 8000 if T else 500
+    n_scr = 4000 if T else 300
     c.cov["rule"] = (
         "random boxes (root size round or arbitrary, 1-6 root boxes per axis), boundaries open/periodic/shear, tree gravity and/or "
         "tree/line-tree collisions (hard sphere or merge), N 1..600, positions uniform / clustered to 1e-9 of a root box / on dyadic cell faces / "
@@ -931,7 +1053,17 @@ def run(c):
         if len(cfg["parts"]) > 150 and not T:
             cfg["steps"] = min(cfg["steps"], 15)
         jobs.append(dict(kind="sim", cfg=cfg, model_budget=3))
-    # interleave the three kinds so that every batch exercises all of them
+    for i in range(n_scr):
+        rng = c.rng.fork()
+        cfg = gen_config(rng, "scramble", allow_face=False)
+        if cfg["gravity"] == "none" and cfg["collision"] == "none":
+            cfg["gravity"] = "tree"
+        if len(cfg["parts"]) > 200:
+            cfg["parts"] = cfg["parts"][:200]
+        cfg["rounds"] = rng.randint(1, 4)
+        cfg["boundary"] = rng.choice(["periodic", "open", "shear", "none"])
+        jobs.append(dict(kind="scramble", cfg=cfg))
+    # interleave the kinds so that every batch exercises all of them
     order = list(range(len(jobs)))
     c.rng.fork().shuffle(order)
     jobs = [jobs[i] for i in order]
@@ -1017,12 +1149,16 @@ def compare_batch(c, exe, lines, expect, meta, st):
         w = m["where"].split(" + ")[0]
         w = "after a step" if w.startswith("after step") else w[:44]
         st["byw"][w] = st["byw"].get(w, 0) + 1
-        if g.strip() != e.strip():
+        if g.split() != e.split():
             if m.get("tie"):
                 st["ties"] += 1
                 continue
             if close_lines(g, e):
                 st["nbit"] += 1        # same integers (shape, indices, counters), doubles equal to rounding error
+                if os.environ.get("C15_DEBUG") and st["nbit"] <= 3:
+                    gt, et = g.split(), e.split()
+                    pos = next((i for i, (a, b) in enumerate(zip(gt, et)) if a != b), -1)
+                    c.log("DEBUG nbit", m, pos, gt[max(0, pos - 14):pos + 3], et[max(0, pos - 14):pos + 3])
                 continue
             st["nd"] += 1
             if st["first"] is None:
